@@ -1725,6 +1725,7 @@ def undo_renames(prog):
         return canon(f)
 
     renames = {}
+    method_renames = set()   # renamed methods: only attribute accesses and the def itself are renamed, never plain names
     for q in sorted(top):
         r = ref.functions.get(q)
         if r is None or r.parent is not None:
@@ -1746,6 +1747,8 @@ def undo_renames(prog):
                            if (m.name == container or container.startswith(m.name + ".")))
             if new not in renames and not (used_old and r.cls is None):
                 renames[new] = old
+                if r.cls is not None:
+                    method_renames.add(new)
                 prog.renamed.append((f"{container}.{new}", q))
                 # parameters renamed along with the function: back to the reference spelling (inside the function, and as
                 # keywords at its call sites)
@@ -1767,7 +1770,7 @@ def undo_renames(prog):
             for n in ast.walk(m.tree):
                 if isinstance(n, (ast.FunctionDef, ast.AsyncFunctionDef)) and n.name in renames:
                     n.name = renames[n.name]
-                elif isinstance(n, ast.Name) and n.id in renames:
+                elif isinstance(n, ast.Name) and n.id in renames and n.id not in method_renames:
                     n.id = renames[n.id]
                 elif isinstance(n, ast.Attribute) and n.attr in renames:
                     n.attr = renames[n.attr]
